@@ -140,6 +140,18 @@ CHECKS.update({
         ref="DESIGN.md section 2 C14"),
 })
 
+CHECKS.update({
+    "C07": dict(
+        technique="runtime monitoring: monitors on Phase.__new__ and Phase.__array_ufunc__ (the protocol boundary every ufunc with a "
+                  "Phase operand crosses) comparing each result elementwise with exact rational arithmetic (fractions.Fraction of the "
+                  "two-double parts) on the operands",
+        text="Exploration: every construction and every add/subtract/negative/positive/absolute/multiply/divide/floor_divide/remainder/"
+             "divmod dispatch observed in a workload stratified over count decades up to 2^52, fraction kinds, twelve operand kinds, "
+             "both operand orders and real/imaginary phases is checked for value (2^-52 cycles), normalisation, result type (never a "
+             "one-double Angle) and the imaginary flag; trig/exp depend only on the fractional part.",
+        ref="DESIGN.md section 2 C07"),
+})
+
 NOT_YET = {}
 
 
